@@ -92,6 +92,8 @@ func c17Rules(p *core.Prog, r *core.Run) {
 	if !m.ok {
 		return
 	}
+	// the (address, ECH list) pairs Dial works from are those Targets enumerates
+	c15Targets(p, r, "C17.TARGETS")
 	all := append(append([]*ssa.Function{}, m.lits...), core.Closures(m.dialOne)...)
 	listF := func(e *core.Expr) bool { return e.Op == "field" && e.Name == "EncryptedClientHelloConfigList" }
 
